@@ -132,6 +132,10 @@ theorem BW_bdeliver (b : BSt) (tid : Nat) (hb : BW b) : BW (bdeliver b tid) := b
       exact ⟨hbi, hb.ri, fun g hg => hb.fl g (List.mem_filter.1 hg).1, hb.acc⟩
     | cons m rest =>
       simp only [hrem] at hbi ⊢
+      by_cases hheld : b.held.contains m = true
+      · simp only [hheld, if_true]; exact hb
+      have hheld' : b.held.contains m = false := by cases hc : b.held.contains m with | true => exact absurd hc hheld | false => rfl
+      simp only [hheld', Bool.false_eq_true, if_false] at hbi ⊢
       have hmrem : m ∈ f.rem := by rw [hrem]; exact List.mem_cons_self ..
       refine ⟨hbi, RI_visitQ _ _ _ hb.ri, ?_, ?_⟩
       · intro g hg x hx
@@ -167,11 +171,20 @@ def OkSubsB : BSt → List BOp → Prop
   | _, [] => True
   | b, o :: os => (∀ op, o = .api op → OkSub b.q op) ∧ OkSubsB (bstep b o) os
 
+theorem BW_of_same (b b' : BSt) (h1 : b'.q = b.q) (h2 : b'.flights = b.flights) (h3 : b'.pubs = b.pubs)
+    (h4 : b'.acc = b.acc) (h5 : b'.got = b.got) (hb : BW b) : BW b' :=
+  ⟨BI_of_same b b' h1 h2 h3 h4 h5 hb.bi, h1 ▸ hb.ri,
+    fun f hf m hm => by rw [h1, h3]; exact hb.fl f (h2 ▸ hf) m hm,
+    fun m i hi => by rw [h3]; exact hb.acc m i (h4 ▸ hi)⟩
+
 theorem BW_bstep (b : BSt) (o : BOp) (ho : ∀ op, o = .api op → OkSub b.q op) (hb : BW b) : BW (bstep b o) := by
   cases o with
   | api op => exact BW_bapi b op (ho op rfl) hb
   | begin tid h t v => exact BW_bbegin b tid h t v hb
   | deliver tid => exact BW_bdeliver b tid hb
+  | park r => obtain ⟨h1, h2, h3, h4, h5⟩ := bpark_same b r false; exact BW_of_same b _ h1 h2 h3 h4 h5 hb
+  | wake r => exact BW_of_same b _ rfl rfl rfl rfl rfl hb
+  | parkHolding r => obtain ⟨h1, h2, h3, h4, h5⟩ := bpark_same b r true; exact BW_of_same b _ h1 h2 h3 h4 h5 hb
 
 theorem BW_brun (b : BSt) (os : List BOp) (ho : OkSubsB b os) (hb : BW b) : BW (brun b os) := by
   induction os generalizing b with
